@@ -296,7 +296,7 @@ def load_known():
 
 
 def write_replay(prop, key, scenario_events, extra=None):
-    d = os.path.join(VERIF, "replays")
+    d = os.environ.get("VERIF_REPLAY_DIR") or os.path.join(VERIF, "replays")
     os.makedirs(d, exist_ok=True)
     h = hashlib.sha256(json.dumps(scenario_events, sort_keys=True).encode()).hexdigest()[:10]
     path = os.path.join(d, "%s_%s_%s.json" % (prop, re.sub(r"[^A-Za-z0-9_.-]", "_", key)[:60], h))
@@ -306,10 +306,12 @@ def write_replay(prop, key, scenario_events, extra=None):
 
 
 def write_evidence(prop, tier, level, coverage, assumptions, wall, violations):
-    os.makedirs(os.path.join(VERIF, "evidence"), exist_ok=True)
+    # development aid (bin/seedtest sweep): runs against a scratch tree keep their evidence out of /verif/evidence
+    edir = os.environ.get("VERIF_EVIDENCE_DIR") or os.path.join(VERIF, "evidence")
+    os.makedirs(edir, exist_ok=True)
     ev = dict(property_id=prop, tier=tier, seed=seed(), level=level, coverage=coverage,
               assumptions=assumptions, wall_s=round(wall, 2), violations=violations)
-    with open(os.path.join(VERIF, "evidence", prop + ".json"), "w") as f:
+    with open(os.path.join(edir, prop + ".json"), "w") as f:
         json.dump(ev, f, indent=1)
 
 
